@@ -187,7 +187,14 @@ class C12:
             b, extra, _, _ = bind_args(s_ret.term, io.params)
             w1 = ("tuple", (("sub", B1, ("const", lo)), ("sub", B1, ("const", hi))))
             w2 = ("tuple", (("sub", B2, ("const", lo)), ("sub", B2, ("const", hi))))
-            got = {b.get(io.params[0]), b.get(io.params[1])}
+            # bounds are 4-tuples (start, low, end, high; shapely, trusted): b[0::2] is (b[0], b[2]) and b[1::2] is (b[1], b[3])
+            def unslice(t):
+                if t is not None and t[0] == "sub" and t[2] == ("slice", ("const", lo), NONE, ("const", 2)) and t[1] in (B1, B2):
+                    return ("tuple", (("sub", t[1], ("const", lo)), ("sub", t[1], ("const", hi))))
+                if t is not None and t[0] == "sub" and lo == 0 and t[2] == ("slice", NONE, NONE, ("const", 2)) and t[1] in (B1, B2):
+                    return ("tuple", (("sub", t[1], ("const", 0)), ("sub", t[1], ("const", 2))))
+                return t
+            got = {unslice(b.get(io.params[0])), unslice(b.get(io.params[1]))}
             if got == {w1, w2}:
                 ctx.ok("R12.4", site, f"compares the {what} extents (bounds[{lo}], bounds[{hi}]) of both geometries")
             else:
